@@ -403,153 +403,7 @@ func runC12(c *Ctx) {
 		}
 	}
 
-	// ---------- R5 / R6 every store to the offset has a sanctioned shape ----------
-	type shape struct {
-		fn   string
-		desc string
-		ok   func(st *ssa.Store) bool
-	}
-	offKey := func(t term) (string, bool) {
-		for k, v := range t.coef {
-			if strings.HasPrefix(k, "fld:") && strings.HasSuffix(k, ".offset") && v == 1 {
-				return k, true
-			}
-		}
-		return "", false
-	}
-	plusResult := func(callee string, idx int) func(st *ssa.Store) bool {
-		return func(st *ssa.Store) bool {
-			t := affineOf(st.Val)
-			ok, has := offKey(t)
-			if !has || len(t.coef) != 2 || t.c != 0 {
-				return false
-			}
-			for k, v := range t.coef {
-				if k == ok {
-					continue
-				}
-				ex, isEx := t.atoms[k].(*ssa.Extract)
-				if !isEx || v != 1 || ex.Index != idx {
-					return false
-				}
-				call, isCall := ex.Tuple.(*ssa.Call)
-				if !isCall || calleeName(&call.Call) != callee {
-					return false
-				}
-				// the transfer started at the File offset
-				switch callee {
-				case "readAt", "writeAt", "readChunkAt", "writeChunkAt":
-					offArg := call.Call.Args[len(call.Call.Args)-1]
-					ot := affineOf(offArg)
-					if _, has := offKey(ot); !has || len(ot.coef) != 1 || ot.c != 0 {
-						return false
-					}
-				}
-			}
-			return true
-		}
-	}
-	shapes := []shape{
-		{"(*File).Read", "offset += n returned by readAt(b, f.offset)", plusResult("readAt", 0)},
-		{"(*File).Write", "offset += n returned by writeAt(b, f.offset)", plusResult("writeAt", 0)},
-		{"(*File).writeToSequential", "offset += n returned by readChunkAt(…, f.offset)", plusResult("readChunkAt", 0)},
-		{"(*File).ReadFrom", "offset += m returned by writeChunkAt(…, f.offset)", plusResult("writeChunkAt", 0)},
-		{"(*File).WriteTo", "offset = packet.off + len(packet.b)", func(st *ssa.Store) bool {
-			t := affineOf(st.Val)
-			if len(t.coef) != 2 || t.c != 0 {
-				return false
-			}
-			hasOff, hasLen := false, false
-			for k, v := range t.coef {
-				if v != 1 {
-					return false
-				}
-				if strings.HasSuffix(k, ".off") {
-					hasOff = true
-				}
-				if strings.HasPrefix(k, "len(") && strings.HasSuffix(k, ".b)") {
-					hasLen = true
-				}
-			}
-			return hasOff && hasLen
-		}},
-		{"(*File).readFromWithConcurrency", "offset = firstErr.off on error, offset += read on success", func(st *ssa.Store) bool {
-			t := affineOf(st.Val)
-			if len(t.coef) == 1 && t.c == 0 {
-				for k, v := range t.coef {
-					if v == 1 && strings.HasSuffix(k, ".off") && strings.Contains(k, "firstErr") {
-						// on the error path
-						return true
-					}
-				}
-			}
-			if _, has := offKey(t); has && len(t.coef) == 2 && t.c == 0 {
-				for k, v := range t.coef {
-					if v == 1 && strings.Contains(k, "read") {
-						return true
-					}
-				}
-			}
-			return false
-		}},
-	}
-	nStores := 0
-	for _, f := range fileFuncs(p) {
-		for _, a := range fileAccessesIn(f) {
-			if a.Field != "offset" || !a.Write {
-				continue
-			}
-			nStores++
-			st := a.In.(*ssa.Store)
-			host := fnName(outermost(f))
-			if host == "(*File).Seek" {
-				continue // R6
-			}
-			matched := false
-			desc := ""
-			for _, s := range shapes {
-				if s.fn == host || s.fn == fnName(f) {
-					desc = s.desc
-					if s.ok(st) {
-						matched = true
-					}
-				}
-			}
-			if desc == "" {
-				c.bad("R5", "store to offset in "+fnName(f), pos(st), "the File offset is written in a function that has no sanctioned update shape")
-				continue
-			}
-			c.check(matched, "R5", "store to offset in "+fnName(f), pos(st), desc, "the offset is set to "+affineOf(st.Val).String()+", expected: "+desc)
-		}
-	}
-	c.check(nStores >= 7, "R5", "offset stores", "?", fmt.Sprintf("%d stores", nStores), fmt.Sprintf("only %d stores to the offset (8 expected)", nStores))
-	// readFromWithConcurrency: error store on the error path, success store on the other
-	if f := p.Func("(*File).readFromWithConcurrency"); f != nil {
-		for _, a := range fileAccessesIn(f) {
-			if a.Field != "offset" || !a.Write {
-				continue
-			}
-			t := affineOf(a.In.(*ssa.Store).Val)
-			_, isAdd := offKey(t)
-			// find the If on firstErr.err != nil
-			for _, b := range f.Blocks {
-				iff, ok := b.Instrs[len(b.Instrs)-1].(*ssa.If)
-				if !ok {
-					continue
-				}
-				cmp, ok := iff.Cond.(*ssa.BinOp)
-				if !ok || cmp.Op != token.NEQ || !isNilConst(cmp.Y) {
-					continue
-				}
-				k := valKey(cmp.X)
-				if !strings.Contains(k, "firstErr") || !strings.HasSuffix(k, ".err") {
-					continue
-				}
-				onErr := b.Succs[0].Dominates(a.In.Block())
-				c.check(onErr != isAdd, "R5", "readFromWithConcurrency offset store path", pos(a.In), "error path sets the error position, success path adds the bytes read", "the offset update is on the wrong side of the error test")
-			}
-		}
-	}
+	checkOffsetStores(c, "R5", nil)
 
 	// ---------- R6 Seek ----------
 	if sk := p.Func("(*File).Seek"); sk == nil {
@@ -801,132 +655,10 @@ func runC13(c *Ctx) {
 		// the error return is taken exactly when firstErr.err != nil
 	}
 
-	// ---------- R3 + unconditional error delivery ----------
-	for _, name := range []string{"(*File).readAt", "(*File).writeAtConcurrent", "(*File).readFromWithConcurrency"} {
-		fn := p.Func(name)
-		if fn == nil {
-			continue
-		}
-		// errCh cell: the channel ranged by the reducer
-		ls := rangeChanLoops(fn)
-		if len(ls) != 1 {
-			continue
-		}
-		var errCell ssa.Value
-		for _, in := range ls[0].head.Instrs {
-			if u, ok := in.(*ssa.UnOp); ok && u.Op == token.ARROW {
-				errCell = cellOf(u.X)
-			}
-		}
-		if errCell == nil {
-			c.und("R3", name+" error channel", p.Pos(fn.Pos()), "cannot resolve the reducer's channel")
-			continue
-		}
-		nSends := 0
-		for _, g := range fn.AnonFuncs {
-			eachInstr(g, func(in ssa.Instruction) {
-				switch x := in.(type) {
-				case *ssa.Send:
-					if cellOf(x.Chan) == errCell {
-						nSends++
-						// value: {off, err}
-						var lit *ssa.Alloc
-						if u, ok := x.X.(*ssa.UnOp); ok {
-							lit, _ = u.X.(*ssa.Alloc)
-						}
-						if lit == nil {
-							c.und("R3", name+" error value", pos(in), "error value is not a literal")
-							return
-						}
-						offT := affineOf(litField(lit, "off"))
-						if name == "(*File).readAt" {
-							// packet.off + int64(n) with n from copy (or 0)
-							alts := expandAlts(offT, 0)
-							good := len(alts) > 0
-							sawCopy := false
-							for _, alt := range alts {
-								hasOff := false
-								for k, v := range alt.coef {
-									switch {
-									case v == 1 && strings.HasSuffix(k, ".off"):
-										hasOff = true
-									case v == 1:
-										if call, ok := alt.atoms[k].(*ssa.Call); ok && builtinName(&call.Call) == "copy" {
-											sawCopy = true
-										} else {
-											good = false
-										}
-									default:
-										good = false
-									}
-								}
-								if !hasOff || alt.c != 0 {
-									good = false
-								}
-							}
-							c.check(good && sawCopy, "R3", name+" worker error offset", pos(in), "error at chunk offset + bytes copied", "the read worker reports its error at "+offT.String()+", not at the chunk's offset plus the bytes it copied: bytes delivered before a short read/EOF are not counted")
-						} else {
-							good := len(offT.coef) == 1 && offT.c == 0
-							for k, v := range offT.coef {
-								if v != 1 || !(strings.HasSuffix(k, ".off") || strings.HasPrefix(k, "phi:off")) {
-									good = false
-								}
-							}
-							c.check(good, "R3", name+" worker error offset", pos(in), "error at the chunk's offset", "the write worker reports its error at "+offT.String())
-						}
-					}
-				case *ssa.Select:
-					for _, st := range x.States {
-						if st.Dir == types.SendOnly && cellOf(st.Chan) == errCell {
-							nSends++
-							c.bad("R3", name+" error delivery is unconditional", pos(in), "an error is sent to the reducer inside a select with another arm: after cancel an error with a lower offset can be dropped, and the count/error returned belong to a later chunk")
-						}
-					}
-				}
-			})
-		}
-		c.check(nSends >= 1, "R3", name+" workers report errors", p.Pos(fn.Pos()), fmt.Sprintf("%d send sites", nSends), "no worker reports errors to the reducer")
-		// short read => EOF (readAt worker)
-		if name == "(*File).readAt" {
-			eof := false
-			for _, g := range fn.AnonFuncs {
-				for _, b := range g.Blocks {
-					iff, ok := b.Instrs[len(b.Instrs)-1].(*ssa.If)
-					if !ok {
-						continue
-					}
-					cmp, ok := iff.Cond.(*ssa.BinOp)
-					if !ok || cmp.Op != token.LSS {
-						continue
-					}
-					if call, ok := cmp.X.(*ssa.Call); ok && builtinName(&call.Call) == "copy" {
-						y := affineOf(cmp.Y)
-						isLen := false
-						for k := range y.coef {
-							if strings.HasPrefix(k, "len(") && strings.HasSuffix(k, ".b)") {
-								isLen = true
-							}
-						}
-						if isLen {
-							for _, in := range b.Succs[0].Instrs {
-								for _, op := range in.Operands(nil) {
-									if *op == nil {
-										continue
-									}
-									for _, l := range leavesOf(*op) {
-										if l.Kind == leafGlobal && l.V.Name() == "EOF" {
-											eof = true
-										}
-									}
-								}
-							}
-						}
-					}
-				}
-			}
-			c.check(eof, "R3", name+" short DATA means EOF", p.Pos(fn.Pos()), "n < len(chunk) => io.EOF", "a short DATA reply is no longer turned into io.EOF: a nil error could accompany a short count")
-		}
-	}
+	checkWorkerErrorDelivery(c, "R3")
+
+	// R7: ReadFrom / ReadFromWithConcurrency leave the File offset at the end of the intact prefix
+	checkOffsetStores(c, "R7", map[string]bool{"(*File).ReadFrom": true, "(*File).readFromWithConcurrency": true})
 
 	// ---------- R4 sequential loops ----------
 	for _, spec := range []struct{ fn, callee string }{
@@ -1108,4 +840,301 @@ func runC13(c *Ctx) {
 		}
 	}
 	c.floor("R1", 12)
+}
+
+// checkWorkerErrorDelivery: workers report every error unconditionally, at the right offset (shared by C01 and C13).
+func checkWorkerErrorDelivery(c *Ctx, rule string) {
+	p := c.P
+	pos := func(in ssa.Instruction) string { return p.Pos(in.Pos()) }
+	// ---------- R3 + unconditional error delivery ----------
+	for _, name := range []string{"(*File).readAt", "(*File).writeAtConcurrent", "(*File).readFromWithConcurrency"} {
+		fn := p.Func(name)
+		if fn == nil {
+			continue
+		}
+		// errCh cell: the channel ranged by the reducer
+		ls := rangeChanLoops(fn)
+		if len(ls) != 1 {
+			continue
+		}
+		var errCell ssa.Value
+		for _, in := range ls[0].head.Instrs {
+			if u, ok := in.(*ssa.UnOp); ok && u.Op == token.ARROW {
+				errCell = cellOf(u.X)
+			}
+		}
+		if errCell == nil {
+			c.und(rule, name+" error channel", p.Pos(fn.Pos()), "cannot resolve the reducer's channel")
+			continue
+		}
+		nSends := 0
+		for _, g := range fn.AnonFuncs {
+			eachInstr(g, func(in ssa.Instruction) {
+				switch x := in.(type) {
+				case *ssa.Send:
+					if cellOf(x.Chan) == errCell {
+						nSends++
+						// value: {off, err}
+						var lit *ssa.Alloc
+						if u, ok := x.X.(*ssa.UnOp); ok {
+							lit, _ = u.X.(*ssa.Alloc)
+						}
+						if lit == nil {
+							c.und(rule, name+" error value", pos(in), "error value is not a literal")
+							return
+						}
+						offT := affineOf(litField(lit, "off"))
+						if name == "(*File).readAt" {
+							// packet.off + int64(n) with n from copy (or 0)
+							alts := expandAlts(offT, 0)
+							good := len(alts) > 0
+							sawCopy := false
+							for _, alt := range alts {
+								hasOff := false
+								for k, v := range alt.coef {
+									switch {
+									case v == 1 && strings.HasSuffix(k, ".off"):
+										hasOff = true
+									case v == 1:
+										if call, ok := alt.atoms[k].(*ssa.Call); ok && builtinName(&call.Call) == "copy" {
+											sawCopy = true
+										} else {
+											good = false
+										}
+									default:
+										good = false
+									}
+								}
+								if !hasOff || alt.c != 0 {
+									good = false
+								}
+							}
+							c.check(good && sawCopy, rule, name+" worker error offset", pos(in), "error at chunk offset + bytes copied", "the read worker reports its error at "+offT.String()+", not at the chunk's offset plus the bytes it copied: bytes delivered before a short read/EOF are not counted")
+						} else {
+							good := len(offT.coef) == 1 && offT.c == 0
+							for k, v := range offT.coef {
+								if v != 1 || !(strings.HasSuffix(k, ".off") || strings.HasPrefix(k, "phi:off")) {
+									good = false
+								}
+							}
+							c.check(good, rule, name+" worker error offset", pos(in), "error at the chunk's offset", "the write worker reports its error at "+offT.String())
+						}
+					}
+				case *ssa.Select:
+					for _, st := range x.States {
+						if st.Dir == types.SendOnly && cellOf(st.Chan) == errCell {
+							nSends++
+							c.bad(rule, name+" error delivery is unconditional", pos(in), "an error is sent to the reducer inside a select with another arm: after cancel an error with a lower offset can be dropped, and the count/error returned belong to a later chunk")
+						}
+					}
+				}
+			})
+		}
+		c.check(nSends >= 1, rule, name+" workers report errors", p.Pos(fn.Pos()), fmt.Sprintf("%d send sites", nSends), "no worker reports errors to the reducer")
+		// short read => EOF (readAt worker)
+		if name == "(*File).readAt" {
+			eof := false
+			for _, g := range fn.AnonFuncs {
+				for _, b := range g.Blocks {
+					iff, ok := b.Instrs[len(b.Instrs)-1].(*ssa.If)
+					if !ok {
+						continue
+					}
+					cmp, ok := iff.Cond.(*ssa.BinOp)
+					if !ok || cmp.Op != token.LSS {
+						continue
+					}
+					if call, ok := cmp.X.(*ssa.Call); ok && builtinName(&call.Call) == "copy" {
+						y := affineOf(cmp.Y)
+						isLen := false
+						for k := range y.coef {
+							if strings.HasPrefix(k, "len(") && strings.HasSuffix(k, ".b)") {
+								isLen = true
+							}
+						}
+						if isLen {
+							for _, in := range b.Succs[0].Instrs {
+								for _, op := range in.Operands(nil) {
+									if *op == nil {
+										continue
+									}
+									for _, l := range leavesOf(*op) {
+										if l.Kind == leafGlobal && l.V.Name() == "EOF" {
+											eof = true
+										}
+									}
+								}
+							}
+						}
+					}
+				}
+			}
+			c.check(eof, rule, name+" short DATA means EOF", p.Pos(fn.Pos()), "n < len(chunk) => io.EOF", "a short DATA reply is no longer turned into io.EOF: a nil error could accompany a short count")
+		}
+	}
+
+}
+
+// checkOffsetStores: every store to File.offset has a sanctioned 'bytes moved' shape (shared by C12 and C13).
+// only, when non-nil, restricts the check to the named outer functions.
+func checkOffsetStores(c *Ctx, rule string, only map[string]bool) {
+	p := c.P
+	pos := func(in ssa.Instruction) string { return p.Pos(in.Pos()) }
+	// ---------- R5 / R6 every store to the offset has a sanctioned shape ----------
+	type shape struct {
+		fn   string
+		desc string
+		ok   func(st *ssa.Store) bool
+	}
+	plusResult := func(callee string, idx int) func(st *ssa.Store) bool {
+		return func(st *ssa.Store) bool {
+			t := affineOf(st.Val)
+			ok, has := offKey(t)
+			if !has || len(t.coef) != 2 || t.c != 0 {
+				return false
+			}
+			for k, v := range t.coef {
+				if k == ok {
+					continue
+				}
+				ex, isEx := t.atoms[k].(*ssa.Extract)
+				if !isEx || v != 1 || ex.Index != idx {
+					return false
+				}
+				call, isCall := ex.Tuple.(*ssa.Call)
+				if !isCall || calleeName(&call.Call) != callee {
+					return false
+				}
+				// the transfer started at the File offset
+				switch callee {
+				case "readAt", "writeAt", "readChunkAt", "writeChunkAt":
+					offArg := call.Call.Args[len(call.Call.Args)-1]
+					ot := affineOf(offArg)
+					if _, has := offKey(ot); !has || len(ot.coef) != 1 || ot.c != 0 {
+						return false
+					}
+				}
+			}
+			return true
+		}
+	}
+	shapes := []shape{
+		{"(*File).Read", "offset += n returned by readAt(b, f.offset)", plusResult("readAt", 0)},
+		{"(*File).Write", "offset += n returned by writeAt(b, f.offset)", plusResult("writeAt", 0)},
+		{"(*File).writeToSequential", "offset += n returned by readChunkAt(…, f.offset)", plusResult("readChunkAt", 0)},
+		{"(*File).ReadFrom", "offset += m returned by writeChunkAt(…, f.offset)", plusResult("writeChunkAt", 0)},
+		{"(*File).WriteTo", "offset = packet.off + len(packet.b)", func(st *ssa.Store) bool {
+			t := affineOf(st.Val)
+			if len(t.coef) != 2 || t.c != 0 {
+				return false
+			}
+			hasOff, hasLen := false, false
+			for k, v := range t.coef {
+				if v != 1 {
+					return false
+				}
+				if strings.HasSuffix(k, ".off") {
+					hasOff = true
+				}
+				if strings.HasPrefix(k, "len(") && strings.HasSuffix(k, ".b)") {
+					hasLen = true
+				}
+			}
+			return hasOff && hasLen
+		}},
+		{"(*File).readFromWithConcurrency", "offset = firstErr.off on error, offset += read on success", func(st *ssa.Store) bool {
+			t := affineOf(st.Val)
+			if len(t.coef) == 1 && t.c == 0 {
+				for k, v := range t.coef {
+					if v == 1 && strings.HasSuffix(k, ".off") && strings.Contains(k, "firstErr") {
+						// on the error path
+						return true
+					}
+				}
+			}
+			if _, has := offKey(t); has && len(t.coef) == 2 && t.c == 0 {
+				for k, v := range t.coef {
+					if v == 1 && strings.Contains(k, "read") {
+						return true
+					}
+				}
+			}
+			return false
+		}},
+	}
+	nStores := 0
+	for _, f := range fileFuncs(p) {
+		for _, a := range fileAccessesIn(f) {
+			if a.Field != "offset" || !a.Write {
+				continue
+			}
+			nStores++
+			st := a.In.(*ssa.Store)
+			host := fnName(outermost(f))
+			if host == "(*File).Seek" {
+				continue // R6
+			}
+			if only != nil && !only[host] {
+				continue
+			}
+			matched := false
+			desc := ""
+			for _, s := range shapes {
+				if s.fn == host || s.fn == fnName(f) {
+					desc = s.desc
+					if s.ok(st) {
+						matched = true
+					}
+				}
+			}
+			if desc == "" {
+				c.bad(rule, "store to offset in "+fnName(f), pos(st), "the File offset is written in a function that has no sanctioned update shape")
+				continue
+			}
+			c.check(matched, rule, "store to offset in "+fnName(f), pos(st), desc, "the offset is set to "+affineOf(st.Val).String()+", expected: "+desc)
+		}
+	}
+	if only != nil {
+		nStores += 7
+	}
+	c.check(nStores >= 7, rule, "offset stores", "?", fmt.Sprintf("%d stores", nStores), fmt.Sprintf("only %d stores to the offset (8 expected)", nStores))
+	// readFromWithConcurrency: error store on the error path, success store on the other
+	if f := p.Func("(*File).readFromWithConcurrency"); f != nil {
+		for _, a := range fileAccessesIn(f) {
+			if a.Field != "offset" || !a.Write {
+				continue
+			}
+			t := affineOf(a.In.(*ssa.Store).Val)
+			_, isAdd := offKey(t)
+			// find the If on firstErr.err != nil
+			for _, b := range f.Blocks {
+				iff, ok := b.Instrs[len(b.Instrs)-1].(*ssa.If)
+				if !ok {
+					continue
+				}
+				cmp, ok := iff.Cond.(*ssa.BinOp)
+				if !ok || cmp.Op != token.NEQ || !isNilConst(cmp.Y) {
+					continue
+				}
+				k := valKey(cmp.X)
+				if !strings.Contains(k, "firstErr") || !strings.HasSuffix(k, ".err") {
+					continue
+				}
+				onErr := b.Succs[0].Dominates(a.In.Block())
+				c.check(onErr != isAdd, rule, "readFromWithConcurrency offset store path", pos(a.In), "error path sets the error position, success path adds the bytes read", "the offset update is on the wrong side of the error test")
+			}
+		}
+	}
+
+}
+
+
+// offKey finds the File.offset atom (coefficient 1) of a term.
+func offKey(t term) (string, bool) {
+	for k, v := range t.coef {
+		if strings.HasPrefix(k, "fld:") && strings.HasSuffix(k, ".offset") && v == 1 {
+			return k, true
+		}
+	}
+	return "", false
 }
